@@ -150,6 +150,26 @@ MUTANTS = [
     ('sched-poke-does-nothing', 'C12', 'Sched.lean', '  | .poke => some { s with wake := false, poked := s.poked || s.asleep.isSome }', '  | .poke => some s'),
     ('mx-empty-a-answer-is-host', 'C11', 'Mx.lean', '      if l.isEmpty then .permanent', '      if false then .permanent'),
 
+    # ---- sixth batch
+    ('auth-cancel-in-initial-ignored', 'C08', 'Server.lean', '    if r == [42] then .ok (.error 501, [], st)\n    else match ao.b64 r with', '    if false then .ok (.error 501, [], st)\n    else match ao.b64 r with'),
+    ('auth-cleartext-allowed', 'C08', 'Server.lean', '  else if !s.encrypted then .ok (s, [.reply 504], .continue_, st)       -- both are plain-text mechanisms', '  else if false then .ok (s, [.reply 504], .continue_, st)'),
+    ('auth-any-code-authenticates', 'C08', 'Server.lean', '      let s2 := { s1 with authed := code == 235 }', '      let s2 := { s1 with authed := true }'),
+    ('auth-login-bad-utf8-accepted', 'C08', 'Server.lean', '          if !utf8 user || !utf8 pass then .ok (s, evs ++ evs2 ++ [.reply 501], .continue_, st\'\')', '          if false then .ok (s, evs ++ evs2 ++ [.reply 501], .continue_, st\'\')'),
+    ('auth-unknown-mechanism-tried', 'C08', 'Server.lean', '  if mech != mPLAIN && mech != mLOGIN then .ok (s, [.reply 504], .continue_, st)', '  if mech != mPLAIN && mech != mLOGIN && false then .ok (s, [.reply 504], .continue_, st)'),
+    ('proxy-v1-tcp6-as-inet', 'C18', 'Proxy.lean', 'if p0 == kwTCP4 then some .inet else if p0 == kwTCP6 then some .inet6 else none', 'if p0 == kwTCP4 then some .inet else if p0 == kwTCP6 then some .inet else none'),
+    ('proxy-v2-port-bytes-swapped', 'C18', 'Proxy.lean', 'def be16 (a b : Byte) : Nat := a.toNat * 256 + b.toNat', 'def be16 (a b : Byte) : Nat := b.toNat * 256 + a.toNat'),
+    ('proxy-v1-needs-no-crlf', 'C18', 'Proxy.lean', '  if proxyPrefix.isPrefixOf line && endsCRLF line then', '  if proxyPrefix.isPrefixOf line then'),
+    ('envelope-continuation-starts-field', 'C20', 'Envelope.lean', '    else if c.head? == some 32 || c.head? == some 9 then', '    else if c.head? == some 32 then'),
+    ('envelope-value-keeps-leading-space', 'C20', 'Envelope.lean', '      | some (n, v) => fieldsOf r ((n, [lstripWs v]) :: acc)', '      | some (n, v) => fieldsOf r ((n, [v]) :: acc)'),
+    ('envelope-7bit-del-is-8bit', 'C20', 'Envelope.lean', 'def isAscii (b : Bytes) : Bool := b.all fun x => x < 128', 'def isAscii (b : Bytes) : Bool := b.all fun x => x < 127'),
+    ('sched-wake-ignored', 'C12', 'Sched.lean', '  | some none => s.wake || s.poked', '  | some none => s.poked'),
+    ('sched-timer-ignored', 'C12', 'Sched.lean', '  | some (some t) => s.wake || s.poked || t ≤ s.now', '  | some (some t) => s.wake || s.poked'),
+    ('pool-wake-takes-nothing', 'C19', 'Pool.lean', "    | some (.idle ru), r :: q => some (setSt { s with queue := q } c (.busy r ru))", "    | some (.idle ru), r :: q => some (setSt { s with queue := r :: q } c (.busy r ru))"),
+    ('timeouts-connect-unscoped', 'C14', 'Timeouts.lean', '  | .connect => some c.connect', '  | .connect => none'),
+    ('client-failed-goes-on', 'C10', 'Client.lean', '  if s.failed.isSome then s else\n  match m with', '  if false then s else\n  match m with'),
+    ('relay-tls-required-ignored', 'C11', 'Relay.lean', '                if isError t && cfg.tlsRequired then some (.raised (factory t))', '                if false then some (.raised (factory t))'),
+    ('relay-8bit-conversion-ignored', 'C11', 'Relay.lean', '  if (!s.eightBit && cfg.body8bit && !cfg.hasEncoder) || (cfg.utf8Addr && !s.smtputf8) then .raised .perm', '  if (cfg.utf8Addr && !s.smtputf8) then .raised .perm'),
+
 ]
 
 
@@ -164,6 +184,7 @@ EXPECTED_SURVIVORS = {
     'qm-activate-skips-when-active': 'unreachable in calm runs: a message enqueue() has just written is active only if an announcement of it was dequeued before the hand-off, which Calm excludes (the non-calm witness is the known finding of C12)',
     'qm-done-keeps-flight': 'not observable: flight is read only by the verdict of a done step, which the scheduler model admits only while the message is in flight, and every hand-off overwrites it',
     'mx-empty-a-answer-is-host': 'equivalent: with an empty record list choose_mx finds nothing and the attempt is a permanent failure either way',
+    'auth-cancel-in-initial-ignored': 'equivalent: an initial response `*` that is not taken for a cancellation is not valid base64 credentials either: 501 both ways',
     'store-redis-incr-creates-zero': 'not observable: the answer of an update on a removed id is outside the storage contract (compared nowhere), and the counter of the hash it recreates is never read (get raises KeyError)',
 }
 
